@@ -352,7 +352,7 @@ def report_concrete(sp):
     import ast
     cr = cr_mod()
     FakeFile.store, FakeFile.opened = {}, []
-    vec = [0.1 * k / 7 for k in range(40)] + [1e-17, 123456789.123456789, 0.30000000000000004]
+    vec = [0.1 * k / 7 for k in range(40)] + [1e-17, 123456789.123456789, 0.30000000000000004] + [k / 5003 for k in range(5000)]
     res = {"g_1": dict(n_states=8, n_transitions=12, n_iterations_reach=3, n_iterations_rew=4,
                        reachability_strategies=[["alfa"], None, ["x", "y"], []], final_strategies=[["alfa"], None, ["x"], []],
                        total_time=0.00123, msg="Game solved", rewards=vec, rew_min_reach=list(reversed(vec)), probabilities=[1, 0, 0.5],
@@ -415,13 +415,14 @@ def report_main(sp, save, path):
         sp.prove(len(calls) == 1, "results saved although -s was not given")
 
 
-@harness("report.reader", props=["C16", "C11"], jobs=lambda tier, seed: [dict(k=k) for k in range(9)],
-         stubs=["open -> in-memory file"], bounds="menu of 8 file contents (dicts and non-dicts)",
+@harness("report.reader", props=["C16", "C11"], jobs=lambda tier, seed: [dict(k=k) for k in range(10)],
+         stubs=["open -> in-memory file"], bounds="menu of 10 file contents (dicts incl. non-ASCII names and expressions using builtins; non-dicts)",
          desc="real read_dict_from_file: returns the dictionary the text denotes; any other content raises ValueError")
 def report_reader(sp, k):
     cr = cr_mod()
     menu = [("{}", {}), ("# c\n{'a': [1, (0.5, 2)], 'b': None}\n", {"a": [1, (0.5, 2)], "b": None}), ("{'x': {'y': 1}}", {"x": {"y": 1}}),
             ("{'juego_se\u00f1al_1': {'players': ['\u03b1', '\u03b2']}}", {"juego_se\u00f1al_1": {"players": ["\u03b1", "\u03b2"]}}),
+            ("{'g': {'rewards': [0] * 3 + [k % 2 for k in range(4)], 'n': len('abc'), 'p': 1 / 4}}", {"g": {"rewards": [0, 0, 0, 0, 1, 0, 1], "n": 3, "p": 0.25}}),
             ("[1, 2]", ValueError), ("3", ValueError), ("'s'", ValueError), ("None", ValueError), ("{1, 2}", ValueError)]
     text, exp = menu[k]
     FakeFile.store, FakeFile.opened = {"f.py": text}, []
